@@ -332,11 +332,13 @@ def orc_sx(orc):
 
 
 class Pending:
-    """a case whose oracle table still needs answers from the harness oracle mode"""
-    def __init__(self, make, queries, tags):
-        self.make = make          # answers(dict (tag,in)->out) -> case line
+    """a case whose oracle table still needs answers from the harness oracle mode (queries) or from the Gallina
+    encoders of Spec/LzwSpec.v / Spec/ZlibStoredSpec.v through the extracted runner (spec_queries)"""
+    def __init__(self, make, queries, tags, spec_queries=()):
+        self.make = make          # answers(dict (tag,in)->out, and ('spec', line)->out) -> case line
         self.queries = queries    # list of (tag, in)
         self.tags = tags
+        self.spec_queries = list(spec_queries)   # runner lines (case lzwenc ..) / (case zenc ..)
 
 
 def stream_case(entries, content, orc, expect, newc, plain_only=None):
@@ -770,6 +772,140 @@ def gen_doc(rng):
     return Pending(make, queries, {'kind': 'doc', 'nontrivial': True})
 
 
+# ------------------------------------------------------------------------------------------
+# the executable Gallina codecs (Spec/LzwSpec.v, Spec/Inflate.v) against weezl and flate2
+# ------------------------------------------------------------------------------------------
+def shift_out_clear(enc):
+    """the same LZW stream without its leading clear-table code (9 bits)"""
+    nb = len(enc) * 8
+    return ((int.from_bytes(enc, 'big') << 9) & ((1 << nb) - 1)).to_bytes(len(enc), 'big') if enc else enc
+
+
+def gen_lzw_rt(rng, ec, data, limit, what):
+    """DATA through three encoders (Gallina with the clearing limit `limit`, weezl, Python reference); the model decodes the
+    three streams with the Gallina decoder, the harness with weezl's: every answer must be DATA"""
+    sq = L('case', 'lzwenc', str(ec), str(limit), xb(data))
+    def make(ans):
+        se = ans[('spec', sq)]
+        we = ans[('e%d' % ec, data)]
+        pe = lzw_encode(data, ec)
+        return L('case', 'lzwrt', str(ec), str(limit), xb(data), L('encs', xb(se), xb(we), xb(pe)))
+    cov = ['lzwspec-e%d' % ec, 'lzwspec-limit%d' % limit]
+    if len(lzw_encode(data, ec)) * 8 // 12 > 3840:
+        cov.append('lzwspec-table-full')
+    return Pending(make, [('e%d' % ec, data)], {'kind': 'lzwspec-rt-' + what, 'nontrivial': len(data) > 0, 'cov': cov}, [sq])
+
+
+def gen_lzw_dec(rng):
+    """arbitrary / damaged LZW streams: Gallina decoder and weezl must agree on acceptance and on the bytes"""
+    ec = rng.choice([0, 1])
+    d = rand_bytes(rng, rng.choice([0, 1, 5, 30, 200, 600, 1500]))
+    good = lzw_encode(d, ec)
+    how = rng.choice(['flip', 'trunc', 'insert', 'junk', 'noclear', 'wrongec', 'trail', 'noeod', 'good'])
+    if how in ('flip', 'trunc', 'insert', 'junk'):
+        bad = damage_bytes(rng, good)
+    elif how == 'wrongec':
+        bad = good; ec = 1 - ec
+    elif how == 'trail':
+        bad = good + rand_bytes(rng, 5)
+    elif how == 'noeod':
+        bad = good[:-2] if len(good) > 2 else good[:1]
+    elif how == 'noclear':
+        bad = shift_out_clear(good)
+    else:
+        bad = good
+    return L('case', 'lzwdec', str(ec), xb(bad)), {'kind': 'lzwspec-dec-' + how, 'nontrivial': True}
+
+
+def zlib_variants(data):
+    """Python zlib (= the C library) in several shapes: levels 0/1/6/9, fixed Huffman codes only, Huffman only (no
+    matches) with a 512-byte window, run-length matches with a full flush (an empty stored block) in the middle"""
+    out = [zlib.compress(data, l) for l in (0, 1, 6, 9)]
+    co = zlib.compressobj(9, zlib.DEFLATED, 15, 9, zlib.Z_FIXED); out.append(co.compress(data) + co.flush())
+    co = zlib.compressobj(6, zlib.DEFLATED, 9, 1, zlib.Z_HUFFMAN_ONLY); out.append(co.compress(data) + co.flush())
+    co = zlib.compressobj(6, zlib.DEFLATED, 15, 8, zlib.Z_RLE)
+    h = len(data) // 2
+    out.append(co.compress(data[:h]) + co.flush(zlib.Z_FULL_FLUSH) + co.compress(data[h:]) + co.flush())
+    return out
+
+
+def gen_zlib_rt(rng, data, k, what):
+    """DATA as a stored-block zlib stream from the Gallina encoder (block size 1 + k mod 65535), from flate2 at levels
+    0/1/6/9 and from zlib in seven shapes; the model inflates all of them with Spec/Inflate.v, the harness with flate2"""
+    sq = L('case', 'zenc', str(k), xb(data))
+    tags = ('z0', 'z1', 'z6', 'z')
+    def make(ans):
+        encs = [ans[('spec', sq)]] + [ans[(t, data)] for t in tags] + zlib_variants(data)
+        return L('case', 'zrt', str(k), xb(data), L('encs', *[xb(e) for e in encs]))
+    cov = ['inflate-stored', 'inflate-fixed', 'inflate-dynamic'] + (['inflate-multiblock'] if len(data) > 1 + k % 65535 else [])
+    return Pending(make, [(t, data) for t in tags], {'kind': 'inflate-rt-' + what, 'nontrivial': len(data) > 0, 'cov': cov}, [sq])
+
+
+def gen_zlib_dec(rng):
+    """arbitrary / damaged zlib streams: Spec/Inflate.v and flate2 must agree on acceptance and on the bytes"""
+    d = rand_bytes(rng, rng.choice([0, 1, 5, 30, 200, 600, 1500]))
+    good = rng.choice(zlib_variants(d))
+    how = rng.choice(['flip', 'trunc', 'insert', 'junk', 'trail', 'noadler', 'badadler', 'hdr', 'dict', 'good'])
+    if how in ('flip', 'trunc', 'insert', 'junk'):
+        bad = damage_bytes(rng, good)
+    elif how == 'trail':
+        bad = good + rand_bytes(rng, 5)
+    elif how == 'noadler':
+        bad = good[:-rng.randint(1, 4)]
+    elif how == 'badadler':
+        bad = good[:-1] + bytes([good[-1] ^ 1])
+    elif how == 'hdr':
+        cmf = rng.choice([0x78, 0x68, 0x08, 0x88, 0x79, 0x77])
+        flg = rng.getrandbits(8)
+        if rng.random() < 0.6:
+            flg = (flg & 0xc0) | (31 - (cmf * 256 + (flg & 0xc0)) % 31) % 31     # a valid check value
+        bad = bytes([cmf, flg]) + good[2:]
+    elif how == 'dict':
+        bad = bytes([0x78, 0xbb]) + good[2:]       # FDICT set, check value right
+    else:
+        bad = good
+    return L('case', 'zdec', xb(bad)), {'kind': 'inflate-dec-' + how, 'nontrivial': True}
+
+
+def gen_codecs(rng, tier):
+    items = []
+    k = 1 if tier == 'quick' else 8
+    allb = bytes(range(256))
+    for ec in (0, 1):
+        fixed = [(b'', 4096, 'empty'), (b'a', 4096, 'one'), (b'aa', 4096, 'two'), (b'aaa', 4096, 'kwkwk'), (allb + allb[::-1], 4096, 'allbytes'),
+                 (b'abababababababababab' * 30, 4096, 'kwkwk-long')]
+        for d, lim, what in fixed:
+            items.append(gen_lzw_rt(rng, ec, d, lim, what))
+        for rep in range(k):
+            # more than 4096 - 258 codes: the table fills up and is cleared, by each encoder at its own point
+            items.append(gen_lzw_rt(rng, ec, rand_bytes(rng, rng.choice([4200, 5000]), 'random'), 4096, 'tablefull'))
+            items.append(gen_lzw_rt(rng, ec, allb * rng.randint(17, 20), 4096, 'tablefull-allbytes'))
+            items.append(gen_lzw_rt(rng, ec, rand_bytes(rng, 4500, 'random'), rng.choice([4095, 4094, 4093]), 'tablefull-sooner'))
+            items.append(gen_lzw_rt(rng, ec, rand_bytes(rng, rng.choice([300, 1000, 2000])), rng.choice([259, 260, 300, 511, 512, 513, 1024, 2049]), 'sooner'))
+            # the width changes 9 -> 10 -> 11 -> 12 at the exact code counts
+            for n in (253, 254, 255, 256, 765, 766, 767, 768, 1789, 1790, 1791, 1792):
+                if k > 1 or rng.random() < 0.34:
+                    items.append(gen_lzw_rt(rng, ec, rand_bytes(rng, n + rng.randint(0, 40), 'random'), 4096, 'width'))
+            for kind in ('text', 'zeros', 'runs', 'small'):
+                items.append(gen_lzw_rt(rng, ec, rand_bytes(rng, rng.choice([100, 1500, 6000 if k > 1 else 3000]), kind), 4096, kind))
+    for _ in range(60 * k):
+        items.append(gen_lzw_dec(rng))
+    for d, what in ((b'', 'empty'), (b'a', 'one'), (allb, 'allbytes')):
+        items.append(gen_zlib_rt(rng, d, 65534, what))
+    for rep in range(k):
+        for kind in ('random', 'text', 'zeros', 'runs', 'small'):
+            for n in (9, 258, 259, 1000, 4000):
+                if k > 1 or rng.random() < 0.5:
+                    items.append(gen_zlib_rt(rng, rand_bytes(rng, n + rng.randint(0, 50), kind), rng.choice([65534, 65534, 0, 6, 99, 4095]), kind))
+        # more than one stored block of the largest size (65535 bytes)
+        items.append(gen_zlib_rt(rng, rand_bytes(rng, 65535 + rng.choice([0, 1, 500]), rng.choice(['text', 'random'])), 65534, 'block65535'))
+    if k > 1:
+        items.append(gen_zlib_rt(rng, rand_bytes(rng, 2 * 65535 + 1, 'text'), 65534, 'block65535x2'))
+    for _ in range(60 * k):
+        items.append(gen_zlib_dec(rng))
+    return items
+
+
 def resolve(items):
     """items: list of (line, tags) or Pending -> list of (line, tags); asks the harness oracle mode once"""
     pend = [x for x in items if isinstance(x, Pending)]
@@ -784,6 +920,16 @@ def resolve(items):
             if not o.startswith('x'):
                 raise RuntimeError('oracle mode answered %r' % o[:80])
             ans[q] = bytes.fromhex(o[1:])
+        sq = sorted({q for p in pend for q in p.spec_queries})
+        if sq:
+            exe, log = vlib.build_runner('c09')
+            if exe is None:
+                raise RuntimeError('runner build failed: ' + log[-500:])
+            outs = vlib.run_lines(exe, sq, timeout=600, shards=8)
+            for q, o in zip(sq, outs):
+                if ' x' not in o:
+                    raise RuntimeError('the Gallina encoder answered %r' % o[:80])
+                ans[('spec', q)] = bytes.fromhex(o.split(' x', 1)[1].rstrip(')'))
     out = []
     for x in items:
         if isinstance(x, Pending):
@@ -848,6 +994,7 @@ def gen_cases(rng, tier):
     else:
         for l in range(0, 256, 2):
             items.append((L('case', 'paeth', str(l), str(l + 2)), {'kind': 'paeth-sweep', 'nontrivial': True}))
+    items.extend(gen_codecs(rng, tier))
     return resolve(items)
 
 
